@@ -465,6 +465,22 @@ class Index:
                 return None
         return None
 
+    def canonical(self, fq: str, _depth: int = 0) -> str:
+        """Follow re-exports through package modules: jax2onnx._compat.jax.batching -> jax.interpreters.batching."""
+        if _depth > 6 or not fq.startswith(PKG):
+            return fq
+        parts = fq.split(".")
+        for i in range(len(parts) - 1, 0, -1):
+            m = self.modules.get(".".join(parts[:i]))
+            if m is not None:
+                head = parts[i]
+                if head in m.imports and head not in m.funcs and head not in m.classes:
+                    tgt = m.imports[head] + ("." + ".".join(parts[i + 1:]) if parts[i + 1:] else "")
+                    if tgt != fq:
+                        return self.canonical(tgt, _depth + 1)
+                return fq
+        return fq
+
     def class_mro(self, cls: ClassInfo) -> List[ClassInfo]:
         out, seen, todo = [], set(), [cls]
         while todo:
